@@ -45,6 +45,7 @@ def gen_thread_spec(r: random.Random) -> dict:
     else:
         base.update(proto="h2", n_origins=1, max_connections=r.choice([1, 2]), max_keepalive=None, keepalive_expiry=None,
                     h2_settings={"3": r.choice([1, 2, 100])})
+    base.update(retries=0, connect_fail=0.0)
     spec = gen_spec(r, "sync", **base)
     spec["family"] = fam
     spec.pop("pool_kw", None)
